@@ -456,8 +456,8 @@ func init() {
 
 				return
 			}
-			if caseNo%40 == 23 {
-				runC09OddLifetime(t, rng, rec, tier, caseNo/40)
+			if caseNo%40 == 23 || caseNo%40 == 24 {
+				runC09OddLifetime(t, rng, rec, tier, caseNo/40*2+caseNo%40-23)
 
 				return
 			}
@@ -483,7 +483,8 @@ func runC09OddLifetime(t *testing.T, rng *rand.Rand, rec *sim.Rec, tier string, 
 	if err != nil {
 		t.Fatal(err)
 	}
-	life := []uint32{0, 1, 0xFFFFFFFF, 0x80000000, 2}[caseNo%5]
+	lives := []uint32{0, 1, 0xFFFFFFFF, 0x80000000, 2, 60, 59, 61, 120, 119, 30, 3600, 600}
+	life := lives[caseNo%len(lives)]
 	var mu sync.Mutex
 	refreshes := 0
 	srv.SetHandler(func(s *sim.ScriptedServer, from *net.UDPAddr, ev sim.SrvEvent) {
